@@ -622,6 +622,12 @@ func c37Gen(r *vh.Rand, tier string, n int) []c37In {
 		"/x/" + alts(27) + "/" + alts(37), "/" + alts(1001), "/" + alts(1000) + "{,/}"} {
 		ins = append(ins, c37In{Kind: "pat", Pattern: p, Paths: []string{"/aa"}})
 	}
+	// a slash directly before a group with a doublestar alternative: the tail /** is zero-length only as plain text
+	ins = append(ins,
+		c37In{Kind: "pat", Pattern: "/a/{**}", Paths: []string{"/a", "/a/", "/a/b", "/ab"}},
+		c37In{Kind: "pat", Pattern: "/a/{**,x}", Paths: []string{"/a", "/a/x", "/a/y/z"}},
+		c37In{Kind: "pat", Pattern: "/a/{x,**/}", Paths: []string{"/a", "/a/", "/a/x"}},
+		c37In{Kind: "pat", Pattern: "/a{/,}{**,b}", Paths: []string{"/a", "/ab", "/a/b"}})
 	// fixed members of the escaped-metacharacter family
 	ins = append(ins,
 		c37In{Kind: "pat", Pattern: "/foo/\\[a\\]", Paths: []string{"/foo/[a]", "/foo/a", "/foo/[a]/", "/foo/b"}},
